@@ -21,6 +21,14 @@ GLOBAL_TRUSTED = [
 ]
 
 
+def out_dir(root, prop):
+    """generated files: one directory per property (C04 and C12 share units and may be checked concurrently); runs against a
+    scratch tree (VERIF_REPO set: mutation self-test) get a private directory so they never clobber a run on /repo"""
+    if os.environ.get("VERIF_REPO"):
+        return os.path.join(root, "out", f"scratch-{os.getpid()}")
+    return os.path.join(root, "out", prop)
+
+
 def load_unit(module):
     m = importlib.import_module("units." + module)
     return m
@@ -71,7 +79,7 @@ def run_unit(root, module, prop, tier, seed, rebaseline=False):
         rec["wall_s"] = time.time() - t0
         rec.setdefault("unit", module)
         return rec
-    outdir = os.path.join(root, "out")
+    outdir = out_dir(root, prop)
     os.makedirs(outdir, exist_ok=True)
     path = os.path.join(outdir, f"{module}.rs")
     with open(path, "w") as f:
@@ -257,11 +265,12 @@ def mutation_selftest(root, prop, unit_names):
 def finish(root, prop, tier, seed, results, wall, no_evidence=False, extra=None):
     findings, _fixed = load_known(root)
     violations, known_seen, undecided = [], [], []
-    os.makedirs(os.path.join(root, "out", "replay"), exist_ok=True)
-    for old in os.listdir(os.path.join(root, "out", "replay")):
+    rdir = os.path.join(out_dir(root, prop), "replay") if os.environ.get("VERIF_REPO") else os.path.join(root, "out", "replay")
+    os.makedirs(rdir, exist_ok=True)
+    for old in os.listdir(rdir):
         if old.startswith(prop + "-"):
             try:
-                os.remove(os.path.join(root, "out", "replay", old))
+                os.remove(os.path.join(rdir, old))
             except OSError:
                 pass
     for rec in results:
@@ -326,7 +335,7 @@ def finish(root, prop, tier, seed, results, wall, no_evidence=False, extra=None)
     for k in known_seen:
         print(f"KNOWN-FINDING: property={prop} {k['what']}")
     for i, (rec, f) in enumerate(violations):
-        rp = os.path.join(root, "out", "replay", f"{prop}-{rec['module']}-{i}.json")
+        rp = os.path.join(rdir, f"{prop}-{rec['module']}-{i}.json")
         payload = {"property": prop, "obligation": f["obligation"], "unit": rec.get("unit"), "function": f["where"], "kind": f["kind"],
                    "verifier_message": f["msg"], "verifier_output": f["verifier"], "generated_file": rec.get("generated"), "generated_line": f["gen_line"],
                    "source_text_at_failure": f["text"], "changed_items_vs_validated_baseline": rec.get("changed_items"),
